@@ -10,6 +10,7 @@ CONSTANTS
   MCWrites = 1
   MCPauses = 0
   MCPanics = {FALSE, TRUE}
+  MCGoAway = TRUE
   GenDepth = 22
 INVARIANTS Emit NoViolation HandlerBound StreamLimit NeverHandled
 CHECK_DEADLOCK FALSE
